@@ -252,6 +252,29 @@ func ociFacts(lf *leanFile) {
 		miss("content/file/file.go:saveFile")
 	}
 	lf.def("fileRecordsPathAfterCopy", "Bool", after)
+	// file store pushFile: is the target removed when saveFile fails?
+	removes := "false"
+	if fd := funcDecl("content/file/file.go", "Store", "pushFile"); fd != nil {
+		ast.Inspect(fd.Body, func(n ast.Node) bool {
+			ifs, ok := n.(*ast.IfStmt)
+			if !ok || ifs.Init == nil || !strings.Contains(exprString(ifs.Cond), "err != nil") {
+				return true
+			}
+			if as, ok := ifs.Init.(*ast.AssignStmt); !ok || len(as.Rhs) != 1 || !strings.HasPrefix(exprString(as.Rhs[0]), "s.saveFile(") {
+				return true
+			}
+			ast.Inspect(ifs.Body, func(m ast.Node) bool {
+				if c, ok := m.(*ast.CallExpr); ok && exprString(c.Fun) == "os.Remove" && len(c.Args) == 1 && exprString(c.Args[0]) == "target" {
+					removes = "true"
+				}
+				return true
+			})
+			return true
+		})
+	} else {
+		miss("content/file/file.go:pushFile")
+	}
+	lf.def("fileRemovesPartialOnFailure", "Bool", removes)
 	lf.def("ociCalls", "List (String × List String)", "["+strings.Join([]string{
 		callList("content/oci/oci.go", "Store", "Delete"),
 		callList("content/oci/oci.go", "Store", "delete"),
